@@ -229,3 +229,9 @@ def run(ck):
         wit = cfg.must_pass_from((cfg.entry, -1), lambda e, s_=set(sites): e in s_) if sites else ['no such statement']
         ck.ob('C06.supersede', 'C06.supersede/' + what, wit is None, ac.loc(),
               'every call of add_contact reaches the %s step (an early return would leave the peer\'s stale announcement in force)' % what, wit)
+    # ... and the expiry of the announced contact is (re)computed from this announcement's TTL on every path
+    stamp = [i for i in ac.walk() if ac.nodes[i]['k'] == 'CXXOperatorCallExpr' and ac.nodes[i].get('op') == '=' and
+             ac.nodes[ac.strip(ac.kids(i)[1])].get('m') == PC + 'expires_at']
+    wit = cfg.must_pass_from((cfg.entry, -1), lambda e, s_=set(stamp): e in s_ or any(ac.is_in(x, e) for x in s_) and ac.nodes[e]['k'] == 'ExprWithCleanups') if stamp else ['no assignment']
+    ck.ob('C06.supersede', 'C06.supersede/expiry-from-this-ttl', wit is None, ac.loc(),
+          'every call of add_contact stamps contact.expires_at = now + ttl (an expiry carried in by the caller must not survive)', wit)
